@@ -47,14 +47,29 @@ package rfc8009
 //@   pure
 //@   trusted_frame returned slices are not tracked as fresh; in-place append into spare capacity cannot be excluded
 //@   requires et_known(tagof(e))
+// RFC 8009 4 (property C08): base-key = KDF-HMAC-SHA2(random-to-key(PBKDF2-HMAC-SHA2(passphrase, saltp, iterations,
+// keylength)), "kerberos", keylength) with saltp = enctype-name | 0x00 | salt.
+//@ func crypto/rfc8009.S2KparamsToItertions(s2kparams) (r, err)
+//@   pure
+//@   ensures err == nil ==> len(s2kparams) == 8 && r == iters_8009(s2kparams)
+//@ func crypto/rfc8009.GetSaltP(salt, ename) (r)
+//@   pure
+//@   ensures bytes(r) == seqcat(seqcat(bytes(ename), seqbyte(0)), bytes(salt))
+//@ func crypto/rfc8009.StringToPBKDF2(secret, salt, iterations, e) (r)
+//@   pure
+//@   trusted_frame returned slices are not tracked as fresh
+//@   requires tagof(e) == typeid("crypto.Aes128CtsHmacSha256128") || tagof(e) == typeid("crypto.Aes256CtsHmacSha384192")
+//@   ensures bytes(r) == pbkdf2(et_hashfn(tagof(e)), bytes(secret), bytes(salt), iterations, et_protokeybytes(tagof(e)))
 //@ func crypto/rfc8009.StringToKey(secret, salt, s2kparams, e) (k, err)
 //@   pure
 //@   trusted_frame returned slices are not tracked as fresh; in-place append into spare capacity cannot be excluded
 //@   requires tagof(e) == typeid("crypto.Aes128CtsHmacSha256128") || tagof(e) == typeid("crypto.Aes256CtsHmacSha384192")
+//@   ensures err == nil ==> bytes(k) == s2k_8009(tagof(e), bytes(secret), bytes(salt), iters_8009(s2kparams))
 //@ func crypto/rfc8009.StringToKeyIter(secret, salt, iterations, e) (k, err)
 //@   pure
 //@   trusted_frame returned slices are not tracked as fresh; in-place append into spare capacity cannot be excluded
 //@   requires tagof(e) == typeid("crypto.Aes128CtsHmacSha256128") || tagof(e) == typeid("crypto.Aes256CtsHmacSha384192")
+//@   ensures err == nil ==> bytes(k) == s2k_8009(tagof(e), bytes(secret), bytes(salt), iterations)
 //@ func crypto/rfc8009.GetIntegityHash(iv, c, key, usage, e) (h, err)
 //@   pure
 //@   trusted_frame returned slices are not tracked as fresh; in-place append into spare capacity cannot be excluded
